@@ -20,3 +20,4 @@ open Servlin.C04S
 #print axioms C04_pipeline_steps_then_error
 #print axioms step_good
 #print axioms step_upload
+#print axioms step_expecting
